@@ -14,7 +14,7 @@ Oracle (mc/spec/io_model.py, standard library only, no float(str), no re):
                  comparison) with >=1 warning and no exception
   multiline-/weight-raises-ValueError   >=2 data rows in a key/tempo file, tempo weight outside [0,1]
   fault-*        a row with the wrong number of columns / an unparsable number raises ValueError whose
-                 message contains the 1-based physical line number of that row
+                 message contains the 1-based physical line number of that row (ragged loader: 0- or 1-based)
   header-skipped load_ragged_time_series(header=True) loads a file whose first line is a header
 Pattern files: every line sequence up to a depth over {pattern header, occurrence header, two data
 lines} plus every structured file with <=2 patterns x <=2 occurrences x <=2 notes; only files that
@@ -144,12 +144,12 @@ def _short(c):
 
 
 # --------------------------------------------------------------------------- does a message name a row?
-def names_row(msg, row, strip_texts):
-    """True when ``msg`` contains the integer ``row`` as a free-standing token once the file name and
-    the offending line's own text have been blanked out."""
+def names_row(msg, rows, strip_texts):
+    """True when ``msg`` contains one of the integers ``rows`` as a free-standing token once the file
+    name and the offending line's own text have been blanked out."""
     for t in sorted((t for t in strip_texts if t), key=len, reverse=True):
         msg = msg.replace(t, " ")
-    return re.search(r"(?<![\w.+\-])%d(?![\w.])" % row, msg) is not None
+    return any(re.search(r"(?<![\w.+\-])%d(?![\w.])" % r, msg) is not None for r in rows)
 
 
 # --------------------------------------------------------------------------- one execution
@@ -253,6 +253,15 @@ def check_case(acc, case):
             acc.counters["fault.row_number_unambiguous(>=4)"] += 1
         if bad_line != fault["row"] + 1:
             acc.counters["fault.line_number_differs_from_data_row_index"] += 1
+        # the property says "naming the row" without fixing a numbering base: load_delimited documents its
+        # rows 1-based by construction (all eight delimited loaders agree), the ragged loader counts
+        # physical lines from 0 without a header - either base is accepted for that loader only
+        accepted = [bad_line]
+        if loader == "ragged_time_series":
+            accepted.append(bad_line - 1)
+            acc.counters["fault.ragged"] += 1
+            if bad_line >= 3:
+                acc.counters["fault.ragged.row>=3(neither base ambiguous)"] += 1
         res, exc, wl, name = _call(loader, case["io"], text, kwargs)
         acc.transitions += 1
         acc.conform += 1
@@ -263,9 +272,9 @@ def check_case(acc, case):
         elif not isinstance(exc, ValueError):
             acc.violation("fault-raises-ValueError", site, case, observed=_exc_str(exc),
                           expected="ValueError naming line %d (%s)" % (bad_line, parsed[2]))
-        elif not names_row(str(exc), bad_line, [name, lines[bad_line - 1]]):
+        elif not names_row(str(exc), accepted, [name, lines[bad_line - 1]]):
             acc.violation("fault-names-row", site, case, observed=_exc_str(exc),
-                          expected="message containing the 1-based line number %d" % bad_line)
+                          expected="message containing the line number %s" % " or ".join(map(str, accepted)))
         return
 
     if parsed != ("rows", [list(r) for r in rows]):
@@ -337,12 +346,10 @@ def check_patterns(acc, case):
             raise core.HarnessError("pattern faults apply to data lines of conforming files: %r" % (case,))
         if fault["op"] == "delete":
             del t[1 + fault["field"]]
-        elif fault["op"] == "add":
-            t.insert(1 + fault["field"], fault["text"])
         elif fault["op"] == "replace":
             t[1 + fault["field"]] = fault["text"]
         else:
-            raise core.HarnessError("unknown fault op %r" % fault["op"])
+            raise core.HarnessError("fault op %r is not demanded for pattern files" % fault["op"])
         ftokens[fault["row"]] = tuple(t)
     lines = render_pattern_lines(ftokens, case["dsep"])
     text = M.render_text(lines, case["eol"], case["trail"])
@@ -357,7 +364,7 @@ def check_patterns(acc, case):
             acc.violation("fault-raises-ValueError", site, case,
                           observed=_exc_str(exc) if exc else "returned " + _short(canon(res)),
                           expected="ValueError naming line %d" % bad_line)
-        elif not names_row(str(exc), bad_line, [name, lines[bad_line - 1]]):
+        elif not names_row(str(exc), [bad_line], [name, lines[bad_line - 1]]):
             acc.violation("fault-names-row", site, case, observed=_exc_str(exc),
                           expected="message containing the 1-based line number %d" % bad_line)
         return
@@ -671,7 +678,6 @@ def shard_patterns(arg):
                                 if isinstance(t, str):
                                     continue
                                 for f in ({"op": "delete", "field": 1, "text": ""},
-                                          {"op": "add", "field": 2, "text": "9.5"},
                                           {"op": "replace", "field": 0, "text": bad},
                                           {"op": "replace", "field": 1, "text": bad}):
                                     fc = dict(case)
@@ -724,14 +730,17 @@ def run(run):
         "delimiters: the documented default (any amount of whitespace: ' ', tab, two spaces, ' \\t '), and the "
         "explicit regular expressions ',', tab, '\\s*,\\s*'; the last column may contain the delimiter",
         "a comment line is a line that BEGINS with the comment pattern (docstring); indented markers are not generated",
-        "'naming the row' is read as: the ValueError message contains the 1-based physical line number of the "
-        "offending row (the convention of load_delimited), as a free-standing integer token",
+        "'naming the row' is read as: the ValueError message contains the physical line number of the offending "
+        "row as a free-standing integer token: 1-based for the loaders built on load_delimited and for load_patterns; "
+        "for load_ragged_time_series the property fixes no numbering base, so the 0-based OR the 1-based physical "
+        "line number is accepted (sharpness: fault states with the faulty row on line >= 3 are counted and required)",
         "a blank line inside a file is a row with the wrong number of columns (fault 'blank')",
         "key/tempo files with no data row at all are executed but nothing is demanded of them",
         "load_ragged_time_series(header=True): the header is the first physical line and must not be parsed as data; "
         "rows after it keep their physical 1-based line numbers in error messages",
-        "pattern files: only files conforming to (pattern (occurrence note+)+)+ are judged; the same single-fault "
-        "clause is applied to their note lines because the property text does not exempt any format",
+        "pattern files: only files conforming to (pattern (occurrence note+)+)+ are judged; faults on note lines: "
+        "a line with one column and an unparsable onset/midi must raise ValueError naming the 1-based row; an EXTRA "
+        "column is not a fault (the docstring defines a note line by its first two values; further columns are tolerated)",
         "convention violations demanded to warn: events decreasing or > 30000 s; interval time < 0 or end <= start; "
         "key tonic/mode outside the documented names or more than two words; tempo < 0 or both tempi 0",
         "the process default text encoding is UTF-8",
@@ -903,6 +912,7 @@ def run(run):
         "eol.crlf", "eol.no_trailing_newline", "comment.first_line", "comment.last_line", "comment.between_rows",
         "comment.custom_marker", "comment.disabled", "io.sio", "io.path", "io.fh",
         "fault.delete", "fault.add", "fault.replace", "fault.blank", "fault.row_number_unambiguous(>=4)",
+        "fault.ragged", "fault.ragged.row>=3(neither base ambiguous)", "fault.patterns.replace",
         "fault.line_number_differs_from_data_row_index", "fault.masked_row_still_legal",
         "key.multiline", "tempo.multiline", "tempo.weight_outside_unit_interval",
         "convention.events-not-increasing", "convention.event-beyond-max-time",
